@@ -94,8 +94,15 @@ Step ==
   /\ l' = l + 1
   /\ UNCHANGED tid
 
+\* cross-oracle (a note, never a verdict): the bundled printrun.gcoder analyser, fed the same lines, ends where
+\* the interpreter of Machine.tla ends, on the axes the machine knows
+GcoderAgrees(T) ==
+  ~T.meta.gcoder.ok \/
+  (/\ T.meta.gcoder.rel = mach.rel
+   /\ \A a \in AxisSet : mach.known[a] => 2 * Abs(T.meta.gcoder.pos[AxIdx[a]] - mach.pos[a]) <= mach.slack[a] + 2)
 Done ==
   /\ l = Len(Traces[tid].ev) + 1
+  /\ IF GcoderAgrees(Traces[tid]) THEN TRUE ELSE PrintT(<<"N", tid, "gcoder">>)
   /\ PrintT(<<"D", tid, l - 1, cnt>>)
   /\ l' = l + 1
   /\ UNCHANGED <<tid, mach, prev, sb, cnt, esw>>
